@@ -2097,8 +2097,8 @@ pub fn check_c03(sc: &Scenario, rr: &RunResult) -> Vec<Violation> {
                 Step::Op { token, .. } => sc.plan.by_token.get(token),
                 _ => None,
             }).and_then(|p| match p {
-                ReplyPlan::Single { res, .. } => res.rc_wide,
-                ReplyPlan::Items { done: Some(d), .. } => d.res.rc_wide,
+                ReplyPlan::Single { res, .. } => res.rc_wide.or(res.rc_octets.as_ref().map(|_| u64::MAX)),
+                ReplyPlan::Items { done: Some(d), .. } => d.res.rc_wide.or(d.res.rc_octets.as_ref().map(|_| u64::MAX)),
                 _ => None,
             }).filter(|w| *w > u32::MAX as u64);
             if let Some(w) = sent_wide {
@@ -2780,7 +2780,7 @@ pub fn check_c18(sc: &Scenario, rr: &RunResult) -> Vec<Violation> {
         let t = c.conn_timeout_ms.unwrap_or(0);
         if o.outcome != "err:Timeout" {
             v.push(Violation::new("C18", "C18.timeout", format!("{shape}/no-timeout-error"), format!("stalling peer and conn_timeout={t}ms: {}", o.outcome)));
-        } else if o.t_ms.abs_diff(t) > 1 {
+        } else if !c.sync_api && o.t_ms.abs_diff(t) > 1 {
             v.push(Violation::new("C18", "C18.timeout", format!("{shape}/timeout-at-wrong-time"), format!("stalling peer and conn_timeout={t}ms: returned at t={}ms", o.t_ms)));
         }
     }
@@ -2795,17 +2795,18 @@ pub fn check_c17(sc: &Scenario, rr: &RunResult) -> Vec<Violation> {
     if o.skipped.is_some() {
         return v;
     }
-    let Peer::Tls { starttls, tls } = &c.peer else { return v };
+    let Peer::Tls { starttls, tls, rogue } = &c.peer else { return v };
     let api = if c.sync_api { "sync" } else { "async" };
     let cfg = format!(
-        "{}{}/{}{}{}{}{}",
+        "{}{}/{}{}{}{}{}{}",
         c.scheme,
         if c.scheme == "ldap" { "+starttls" } else { "" },
         if c.trust_ca { "custom-connector" } else { "default-connector" },
         if c.no_tls_verify { "/no-verify" } else { "" },
         if c.host != HostForm::Name { "/wrong-name" } else { "" },
         if c.clone_settings { "/cloned-settings" } else { "" },
-        if c.std_stream == crate::estab::StdKind::Unix { "/std-unix" } else { "" }
+        if c.std_stream == crate::estab::StdKind::Unix { "/std-unix" } else { "" },
+        if *rogue { "/untrusted-issuer" } else { "" }
     );
     let beh = format!("{:?}/{:?}", starttls, tls).replace(|ch: char| ch.is_ascii_digit(), "").replace("()", "");
     if let Some(p) = o.outcome.strip_prefix("panic:") {
@@ -2815,7 +2816,9 @@ pub fn check_c17(sc: &Scenario, rr: &RunResult) -> Vec<Violation> {
     let ok = o.outcome == "ok";
     let starttls_scheme = c.scheme == "ldap";
     let good_starttls = !starttls_scheme || matches!(starttls, StartTlsResp::Success | StartTlsResp::SuccessPlusInjected | StartTlsResp::NoticeThenSuccess);
-    let cert_ok = c.trust_ca && c.host == HostForm::Name;
+    // the harness CA is trusted by the custom connector and - as this process's system store - by the library's
+    // default TLS configuration; the certificate names "localhost" only
+    let cert_ok = !*rogue && c.host == HostForm::Name;
     let unix_stream = c.std_stream == crate::estab::StdKind::Unix;
     let must_err = unix_stream || !good_starttls || *tls != TlsBehaviour::Good || (!cert_ok && !c.no_tls_verify);
     let must_ok = !unix_stream && good_starttls && *tls == TlsBehaviour::Good && (cert_ok || (c.no_tls_verify && !c.trust_ca));
